@@ -137,3 +137,135 @@ Example C18_header_line_bound_tight :
   fold_bound_ok_n 72 (wh_buffer (bs "Subject") [repeat 97%N 31 ++ [32%N] ++ repeat 97%N 31] ++ crlf) = true /\
   fold_bound_ok_n 71 (wh_buffer (bs "Subject") [repeat 97%N 31 ++ [32%N] ++ repeat 97%N 31] ++ crlf) = false.
 Proof. exact header_line_bound_tight. Qed.
+
+(* ======================= the whole message =======================
+   coq/theories/Render.v gives the bytes of a rendered message as a pure function (proved equal to the
+   writer model's output on every destination that reports no error: C01_render_pure,
+   C12_success_means_pure); coq/theories/Lines.v defines the line discipline without a length bound.
+   Hypotheses (proofs/LineDisciplineProofs.v):
+     msg_safe z     header keys / values as go-mail's setters store them (printable; keys without
+                    ':' and blank) at top level, in part sections and in file header caches; no
+                    preformatted headers;
+     all_encoded z  every body is encoded by the library (quoted-printable, also the default branch
+                    for other encoding names, or base64) — 8bit bodies are the caller's own lines;
+     bnds_safe z / bnds_ok z   the boundaries in use are printable / printable without blank and at
+                    most 70 characters (RFC 2046; multipart.Writer's random boundaries have 60). *)
+From Verif Require Import MimeTree Render Lines.
+From VerifProofs Require Import WriterProofs RenderProofs HeaderBlockProofs LineDisciplineProofs.
+
+(* (1) no bare CR, no bare LF anywhere in the message; with a final CRLF appended (what the DATA
+   writer does) it consists of complete lines; a multipart message ends in CRLF by itself *)
+Theorem C18_message_crlf_only : forall (d i : bytes) (rb : list bytes) (m : msg),
+  let z := resolve d i rb m in
+  msg_safe z -> all_encoded z = true -> bnds_safe z ->
+  crlf_only (render_pure z ++ crlf) = true /\
+  no_bare_crlf (render_pure z) = true /\
+  (multipart z = true -> crlf_only (render_pure z) = true).
+Proof. exact message_crlf_only. Qed.
+Print Assumptions C18_message_crlf_only.
+
+(* (2) every encoded leaf body: lines of at most 76 characters (the last one terminated by the
+   enclosing writer's CRLF) — for every resolved message, no further hypothesis *)
+Theorem C18_message_body_lines : forall z : rmsg,
+  all_encoded z = true ->
+  Forall (fun lf => lines_ok 76 (snd lf ++ crlf) = true) (flat_map leaves (forest_of z)).
+Proof. exact message_body_lines. Qed.
+Print Assumptions C18_message_body_lines.
+
+(* … and the delimiter lines "--b" / "--b--" of every multipart layer have at most 72 / 74 *)
+Theorem C18_message_delimiter_lines : forall z : rmsg,
+  bnds (fun b => length b <= 70)%nat z ->
+  Forall (fun b => (length (dashdash ++ b) <= 72 /\ length (dashdash ++ b ++ dashdash) <= 74)%nat)
+         (flat_map node_bnds (forest_of z)).
+Proof. exact message_delimiter_lines. Qed.
+Print Assumptions C18_message_delimiter_lines.
+
+(* (3) EVERY line of the message — header sections at every level, delimiter lines, encoded
+   bodies — has at most 78 characters or is a single token without blanks.  nested_short z is the
+   complement of the known finding part-header-line-too-long: the part header sections written by
+   multipart.CreatePart (not folded) have no line "Key: value" longer than 78. *)
+Theorem C18_message_line_bound : forall (d i : bytes) (rb : list bytes) (m : msg),
+  let z := resolve d i rb m in
+  msg_safe z -> all_encoded z = true -> bnds_ok z = true -> nested_short z = true ->
+  forallb (line_ok 78) (lines_of (render_pure z ++ crlf)) = true.
+Proof. exact message_line_bound. Qed.
+Print Assumptions C18_message_line_bound.
+
+(* the top-level header block needs nothing but header-safe stored values *)
+Theorem C18_message_header_lines : forall m : msg,
+  hdrs_safe m -> m_preform m = [] -> fold_bound_ok (top_headers m) = true.
+Proof. exact top_header_line_bound. Qed.
+Print Assumptions C18_message_header_lines.
+
+(* random boundaries: without cached boundaries, bnds_ok follows from the drawn ones *)
+Theorem C18_random_boundaries_ok : forall (d i : bytes) (rb : list bytes) (m : msg),
+  m_bmixed m = [] -> m_brelated m = [] -> m_balt m = [] ->
+  Forall (fun b => bnd_ok b = true) rb ->
+  bnds_ok (resolve d i rb m) = true.
+Proof. exact resolve_bnds_ok. Qed.
+Print Assumptions C18_random_boundaries_ok.
+
+(* ---- instances ---- *)
+Definition c18_hex (c : N) : bytes := repeat c 60.
+Definition c18_rb : list bytes := [c18_hex 97; c18_hex 98; c18_hex 99]%N.
+Definition c18_msg (attname : bytes) : msg :=
+  mkmsg (bs "UTF-8") 113%N
+        [(bs "Subject", [bs "a subject that is long enough to be folded by writeHeader because it does not fit"])] []
+        (Some (bs "<alice@example.com>")) [(bs "To", [bs "<bob@example.com>"; bs "<carol@example.com>"])]
+        [mkpart (bs "text/plain") [] EncQP [] (mkprod [repeat 120%N 200; crlf; bs "second line = end"] false);
+         mkpart (bs "text/html") [] EncB64 (bs "the html part") (mkprod [repeat 60%N 100] false)]
+        [mkfile (bs "logo.png") (bs "image/png") None [] [] (mkprod [[137; 80; 78; 71; 13; 10; 26; 10]%N] false)]
+        [mkfile attname (bs "text/plain") (Some EncQP) [] [] (mkprod [bs "line one"; crlf] false)]
+        [] [] [].
+Definition c18_z (attname : bytes) : rmsg := resolve (bs "Thu, 01 Oct 2026 10:00:00 +0000") (bs "<1@example.com>") c18_rb (c18_msg attname).
+
+(* the hypotheses are satisfiable by a three-layer message (mixed > related > alternative) … *)
+Example C18_message_hypotheses_satisfiable :
+  let z := c18_z (bs "notes.txt") in
+  msg_safe z /\ all_encoded z = true /\ bnds_ok z = true /\ bnds_safe z /\ nested_short z = true /\
+  multipart z = true /\ Forall (fun b => bnd_ok b = true) c18_rb.
+Proof.
+  cbv zeta. split; [|split; [vm_compute; reflexivity|split; [vm_compute; reflexivity|split; [|split; [vm_compute; reflexivity|split; [vm_compute; reflexivity|repeat constructor]]]]]].
+  - unfold msg_safe. cbv zeta. split; [|split; [reflexivity|split; [|split]]].
+    + unfold hdrs_safe. split; [|split].
+      * vm_compute. repeat (constructor; [split; [reflexivity|repeat constructor]|]). constructor.
+      * intros f H. vm_compute in H. inversion H. reflexivity.
+      * vm_compute. repeat constructor.
+    + vm_compute. repeat (constructor; [repeat (constructor; [split; [reflexivity|repeat constructor]|]); constructor|]). constructor.
+    + vm_compute. repeat (constructor; [repeat (constructor; [split; [reflexivity|repeat constructor]|]); constructor|]). constructor.
+    + vm_compute. repeat (constructor; [repeat (constructor; [split; [reflexivity|repeat constructor]|]); constructor|]). constructor.
+  - unfold bnds_safe, bnds. cbv zeta. repeat split; intros _; vm_compute; reflexivity.
+Qed.
+
+(* … on which the statements are not vacuous: 56 lines (and the empty one after the last CRLF), among them folded header lines, soft-broken
+   quoted-printable lines of 76 characters and base64 lines of 76 characters *)
+Example C18_message_example :
+  let s := render_pure (c18_z (bs "notes.txt")) in
+  crlf_only s = true /\ forallb (line_ok 78) (lines_of s) = true /\
+  list_max (map (@length N) (lines_of s)) = 76%nat /\
+  Nat.leb 40 (length (lines_of s)) = true.
+Proof. vm_compute. repeat split; reflexivity. Qed.
+
+(* the hypothesis nested_short cannot be dropped (known finding part-header-line-too-long): the
+   same message with a 60-character non-ASCII attachment name has a part header line of several
+   hundred characters that contains blanks *)
+Theorem C18_message_part_header_refuted : exists attname : bytes,
+  let z := c18_z attname in
+  all_encoded z = true /\ bnds_ok z = true /\ nested_short z = false /\
+  crlf_only (render_pure z) = true /\
+  forallb (line_ok 78) (lines_of (render_pure z ++ crlf)) = false.
+Proof. exists (concat (repeat [195; 164]%N 60)). vm_compute. repeat split; reflexivity. Qed.
+Print Assumptions C18_message_part_header_refuted.
+
+(* "ends in CRLF" is a property of multipart messages: a message that is one quoted-printable part
+   whose text does not end in a line break ends without CRLF (the DATA writer supplies it) *)
+Theorem C18_single_part_no_final_crlf_refuted : exists m : msg,
+  let z := resolve (bs "d") (bs "<i@x>") [] m in
+  all_encoded z = true /\ multipart z = false /\
+  no_bare_crlf (render_pure z) = true /\ crlf_only (render_pure z) = false /\
+  crlf_only (render_pure z ++ crlf) = true.
+Proof.
+  exists (mkmsg (bs "UTF-8") 113%N [] [] None [] [mkpart (bs "text/plain") [] EncQP [] (mkprod [bs "Hello"] false)] [] [] [] [] []).
+  vm_compute. repeat split; reflexivity.
+Qed.
+Print Assumptions C18_single_part_no_final_crlf_refuted.
